@@ -174,6 +174,19 @@ func runC20(c *Ctx) {
 	for _, b := range []beh{behs[0], behs[1], behs[4]} {
 		jobs = append(jobs, job{bgCall, b})
 	}
+	// a composite of the wrappers: the first write of a checkpoint document (xattr upsert -> "key not found" -> create the
+	// document -> xattr upsert again), all under the one deadline of cbMetadata.Save; the server goes silent on the create
+	mdCfg := *cfg
+	mdCfg.Metadata.Type = "couchbase"
+	saveCall := c20Call{name: "cbMetadata.Save, first write of a checkpoint document", opcode: memd.CmdSet, deadline: dl,
+		run: func(w *wire, _ context.Context) error {
+			md := couchbase.NewCBMetadata(w.Client, &mdCfg)
+			doc := models.NewEmptyCheckpointDocument("b")
+			return md.Save(map[uint16]*models.CheckpointDocument{5: doc}, map[uint16]bool{5: true}, "b")
+		}}
+	for _, b := range []beh{behs[0], behs[1], behs[3], behs[4]} {
+		jobs = append(jobs, job{saveCall, b})
+	}
 	for _, cl := range long {
 		for _, b := range behs[:2] {
 			jobs = append(jobs, job{cl, b})
@@ -326,6 +339,47 @@ func runC20(c *Ctx) {
 		}
 	})
 
+	// the stream request that follows a rollback is refused by the server: OpenStream must say so
+	func() {
+		w, err := newWire(cfg, simnode.Config{NumVBuckets: 8})
+		if err != nil {
+			return
+		}
+		defer w.Close()
+		for _, second := range []string{"refused", "accepted"} {
+			vb := uint16(4)
+			if second == "accepted" {
+				vb = 5
+			}
+			w.Node.SetFailoverLog(vb, gocbcore.FailoverEntry{VbUUID: 77, SeqNo: 0})
+			if second == "refused" {
+				w.Node.ScriptStream(vb, simnode.StreamRollbackTo(3), simnode.StreamFail(memd.StatusInternalError))
+			} else {
+				w.Node.ScriptStream(vb, simnode.StreamRollbackTo(3), simnode.StreamSuccess())
+			}
+			off := &models.Offset{SnapshotMarker: &models.SnapshotMarker{StartSeqNo: 9, EndSeqNo: 9}, VbUUID: 55, SeqNo: 9, LatestSeqNo: ^uint64(0)}
+			done := make(chan error, 1)
+			go func() { done <- w.Client.OpenStream(vb, nil, off, obsNop{}) }()
+			var oerr error
+			hung := false
+			select {
+			case oerr = <-done:
+			case <-time.After(5 * time.Second):
+				hung = true
+			}
+			rep := map[string]interface{}{"wrapper": "OpenStream", "behaviour": "rollback to 3, then the second request " + second, "error": fmt.Sprint(oerr)}
+			c.Eval("OpenStream/rollback-then-"+second, true)
+			c.Count("behaviour:rollback-then-" + second)
+			switch {
+			case hung:
+				c.Violate("hang", "OpenStream did not return within 5 s (rollback, then the second request "+second+")", rep)
+			case second == "refused" && oerr == nil:
+				c.Violate("invented-outcome", "OpenStream reported success although the server refused the stream request that followed the rollback", rep)
+			case second == "accepted" && oerr != nil:
+				c.Violate("spurious-error", fmt.Sprintf("OpenStream returned %v although the server accepted the stream request that followed the rollback", oerr), rep)
+			}
+		}
+	}()
 	time.Sleep(1200 * time.Millisecond)
 	if left := runtime.NumGoroutine() - baseline; left > 8 {
 		c.Violate("goroutine-leak", fmt.Sprintf("%d goroutines were left behind after all calls had returned and all connections were closed (a completion callback stuck on a channel)", left), map[string]int{"left": left})
